@@ -1979,3 +1979,6 @@ m("C04", "lambda-defaults-inside-scope", "astutil.py",
             args.kw_defaults = [
                 d if d is None else self.visit(d) for d in args.kw_defaults
             ]''')
+m("C05", "global-multi-name-whole-value", C,
+  '''                    "rcontext[KEY] = econtext[KEY]", KEY=ast.Constant(''',
+  '''                    "rcontext[KEY] = __value", KEY=ast.Constant(''')
